@@ -772,7 +772,7 @@ type bounds struct {
 
 func tierBounds() bounds {
 	b := bounds{
-		alphaA:  []byte("sha124569-0fgA"),
+		alphaA:  []byte("sha12456-0fgA"),
 		lenA:    7,
 		alphaB:  []byte("sha1256-0fgAz9FG_/` \x00\xff\""),
 		lenB:    5,
@@ -781,6 +781,7 @@ func tierBounds() bounds {
 		bytesN:  2,
 	}
 	if vk.Thorough() {
+		b.alphaA = []byte("sha124569-0fgA")
 		b.alphaC, b.lenC = []byte("sha1256-0fgA"), 8
 		b.lenB = 6
 		b.hexVar = 6
@@ -1027,6 +1028,39 @@ func prefixBatch(rn *runner, sc *vk.Scenario, t *tally, r blob.Ref, e ent, cands
 	return i
 }
 
+// scenPoolTexts pushes every candidate string derived from the pool (the same
+// prefixes / 1-symbol mutations / extensions as the prefix scenario) through
+// the whole parser battery: full-length refs with one wrong symbol at every
+// position, truncated and over-long refs.
+func scenPoolTexts(rn *runner, pool []ent, deep bool) {
+	sc := rn.res.Scenario("pool-text-mutations")
+	t := newTally()
+	defer finish(sc, t)
+	var n int64
+	for i, e := range pool {
+		if e.zero {
+			continue
+		}
+		cands := candidates(e.text, deep)
+		n += int64(len(cands))
+		if !vk.Mine(i) {
+			continue
+		}
+		if rn.expired() {
+			cut(sc, "pool texts incomplete")
+			return
+		}
+		for j, c := range cands {
+			k := kase{Kind: "text", S: c}
+			if j == 77 && i%40 == 0 {
+				sc.Sample(k.replay())
+			}
+			rn.do(sc, checkText, k, t)
+		}
+	}
+	sc.Bound = fmt.Sprintf("every candidate string derived from every pool text (%d texts; every prefix, 1-symbol mutations [deep=%v: at every position of every prefix, else last symbol of every prefix and every position of the full text], 1-symbol extensions; %d strings) through the same parser/accessor/encoding battery as the short strings", len(pool)-1, deep, n)
+}
+
 func scenEncodings(rn *runner, pool []ent) {
 	sc := rn.res.Scenario("encodings")
 	t := newTally()
@@ -1191,26 +1225,30 @@ func TestCheck(t *testing.T) {
 	b := tierBounds()
 	// VERIF_C20_ONLY=<scenario> (debugging aid): run one scenario only
 	want := func(name string) bool { o := os.Getenv("VERIF_C20_ONLY"); return o == "" || o == name }
-	// Order: the scenarios every tier shares first, the thorough-only
-	// extensions last, so that a deadline on an overloaded machine cuts the
-	// extensions (reported as exhaustive=false) and never the core.
+	// Order: cheapest first (pairs, encodings, contents, prefixes), then the
+	// string spaces, the thorough-only extensions last: a deadline on an
+	// overloaded machine cuts the big string spaces / the extensions (reported
+	// as exhaustive=false), never the cheap scenarios.
 	if want("less-pairs") {
 		scenPairs(rn, pool)
 	}
 	if want("encodings") {
 		scenEncodings(rn, pool)
 	}
-	if want("hash-hex") {
-		scenHashHex(rn, "hash-hex", b.hexSyms, b.hexVar)
-	}
-	if want("short-strings") {
-		scenShortStrings(rn, "short-strings", b.alphaA, b.lenA)
+	if want("pool-text-mutations") {
+		scenPoolTexts(rn, pool, b.deep)
 	}
 	if want("digests") {
 		scenDigests(rn, b.bytesN)
 	}
 	if want("prefix-mutations") {
 		scenPrefix(rn, pool, b.deep)
+	}
+	if want("hash-hex") {
+		scenHashHex(rn, "hash-hex", b.hexSyms, b.hexVar)
+	}
+	if want("short-strings") {
+		scenShortStrings(rn, "short-strings", b.alphaA, b.lenA)
 	}
 	if want("short-strings-wide") {
 		scenShortStrings(rn, "short-strings-wide", b.alphaB, b.lenB)
